@@ -143,6 +143,21 @@ func c03Layout(c *Ctx) {
 		}, 1)
 	}
 	rp := bufTotals("dnsdata", "(*Rrangepoint).MarshalMap", 0)
+	if len(rp) == 0 {
+		// the key assembled as a plain byte slice (append chain) and stored into MapRecord.Key
+		fn := c.Func("dnsdata", "(*Rrangepoint).MarshalMap")
+		fKey := c.Field("dnsdata", "MapRecord", "Key")
+		rp = map[int]bool{}
+		for _, st := range storesToField(fn, fKey) {
+			ws := widthSetOf(st.Val, st.Block(), 0)
+			if ws == nil {
+				rp[-1] = true
+			}
+			for w := range ws {
+				rp[w] = true
+			}
+		}
+	}
 	c.Check(rule, "Rrangepoint.MarshalMap|key-width", len(rp) == 1 && rp[23], token.NoPos, fmt.Sprintf("range-point key widths on all paths: %v (expected 23)", intSetString(rp)))
 	rn := c.Func("dnsdata", "(*Rnet).MarshalMap")
 	// the full key is the last key buffer (k := new(bytes.Buffer) after the optional short form)
@@ -179,6 +194,21 @@ func c03Layout(c *Ctx) {
 				case *ssa.Slice:
 					if x.Low != nil && isByteSlice(x.X.Type()) {
 						if s := evalIntSet(x.Low, 0); len(s) == 1 {
+							for k := range s {
+								lows = append(lows, k)
+							}
+						}
+					}
+				case *ssa.IndexAddr:
+					// a one-byte component stored by index (key[22] = masklen) is a component at that offset too
+					if isByteSlice(x.X.Type()) {
+						stored := false
+						for _, r := range *x.Referrers() {
+							if st, ok := r.(*ssa.Store); ok && st.Addr == ssa.Value(x) {
+								stored = true
+							}
+						}
+						if s := evalIntSet(x.Index, 0); stored && len(s) == 1 {
 							for k := range s {
 								lows = append(lows, k)
 							}
